@@ -50,6 +50,21 @@ DIRECTIONS = {
         "used field types and definitions (STRING_LZ, STRING_LAU, variable-length BINARY, repeating field sets, MMSI, DECIMAL, FLOAT, "
         "64-bit fields, PGN-typed fields, ISO transport-protocol PGNs 60160/60416, ISO request/acknowledge, group functions 126208). "
         "Avoid what the earlier notes below already did."),
+    8: ("Welcome directions this round: (1) messages that were NOT produced by the decoder: built by hand from NMEA2000Message / "
+        "NMEA2000Field (minimal constructor arguments, fields in another order than the definition, an extra unknown field, a duplicated "
+        "field id, value given but raw_value None or the other way round, id in another letter case), parsed with from_json() from JSON "
+        "written by hand or by an older version, or decoded by one decoder and passed on to an encoder / client / to_json of another; "
+        "(2) numeric and type edge cases of field values: int vs float vs bool vs numeric string, negative zero, values exactly on a "
+        "rounding tie, the largest / smallest representable value of every width, resolution with many decimals, signed fields one bit "
+        "wide, fields that straddle a byte or a 32/64-bit boundary, lookup values given as int vs str vs enum; (3) the ORDER of public "
+        "calls: set_receive_callback / set_status_callback after connect(), replacing or clearing a callback mid-session, send() "
+        "before connect(), connect() twice, close() then send(), decoder.close() then decode, constructing many objects and dropping "
+        "them; (4) the less travelled public entry points and parameters: decode_basic_string(already_combined=False) frame by frame, "
+        "decode_actisense_string with lower-case hex or a long uptime, decode_yacht_devices_string with T (transmit echo) lines, "
+        "dump_pgns given as ids, include lists mixing numbers and ids, preferred_units with the less common units (f, psi), IsoName "
+        "parsing of unusual NAMEs, the ISO request seeding of the network map, the Waveshare configuration packet; (5) anything in "
+        "the interplay of TWO of the 20 areas (filters x fast packets, unit preferences x JSON, network map x reconnect, dump file x "
+        "close, send x close, noise x reconnect). Avoid what the earlier notes below already did."),
 }
 
 
